@@ -213,7 +213,12 @@ impl<'a> Hist<'a> {
             "-".into()
         };
         let mut st = s.clone();
-        let res = silent(|| st.apply_tx_batch(txs));
+        // with RAYON_NUM_THREADS set, the batch is validated from INSIDE a rayon pool of that many threads (a node that
+        // validates on a pool worker): rayon then cuts the slice up differently than for a call from outside the pool
+        let res = silent(|| match explicit_pool() {
+            Some(p) => p.install(|| st.apply_tx_batch(txs)),
+            None => st.apply_tx_batch(txs),
+        });
         let _ = melvm::verif_hooks::take_log();
         let line = format!(
             "batch {} {} {} {} {}",
@@ -2148,6 +2153,15 @@ fn script_big_activation(h: &mut Hist, r: &mut Rng) {
     h.w.names.reg_tx(&tx);
     let _ = h.op_batch(&u, &[tx], "bigactivation:spend-after");
     h.bump("history:big-activation-script");
+}
+
+/// an explicit rayon pool of RAYON_NUM_THREADS threads, when that variable is set
+fn explicit_pool() -> Option<&'static rayon::ThreadPool> {
+    static POOL: std::sync::OnceLock<Option<rayon::ThreadPool>> = std::sync::OnceLock::new();
+    POOL.get_or_init(|| {
+        std::env::var("RAYON_NUM_THREADS").ok().and_then(|v| v.parse::<usize>().ok()).filter(|n| *n > 0).and_then(|n| rayon::ThreadPoolBuilder::new().num_threads(n).build().ok())
+    })
+    .as_ref()
 }
 
 /// one history
